@@ -78,8 +78,9 @@ class Plot(object):
     Sources are histograms, graphs, plain strings (by position and `variant`) or objects with a write method.
     """
 
-    def __init__(self, p, nsrc, obj, grouped, variant=0, pngext="png"):
+    def __init__(self, p, nsrc, obj, grouped, variant=0, pngext="png", nplots=2):
         self.p, self.nsrc, self.obj, self.grouped, self.variant = p, nsrc, obj, grouped, variant
+        self.unnamed = False       # bare data without any context: Write's default name "output"
         self.dirname = ""          # where the files are expected, relative to the output directory
         self.ctx_dirname = None    # what context.output.dirname says (an absolute one is made relative by Write)
         self.csvext = "csv"
@@ -102,6 +103,10 @@ class Plot(object):
                 self.dirname = self.ctx_dirname = "run.texts.pdf.d"
                 self.name_class = "substring-name"
             self.members = [self.gname]
+            if nplots == 1 and not obj and not self.name_class and variant % 5 == 4:
+                # the only value of the flow is bare data (no context at all): no name can be made,
+                # Write falls back to its *output_filename* ("output")
+                self.unnamed, self.gname, self.members = True, "output", [None]
             if p == 2:
                 self.dirname = "sub"       # through MakeFilename(dirname="{{dir}}")
                 self.csvext = ""           # an empty file extension: the data file has no dot
@@ -114,7 +119,8 @@ class Plot(object):
     def kind(self, m):
         if self.obj:
             return "obj"
-        return ("hist", "graph", "str")[(self.p + m + self.variant) % 3]
+        k = ("hist", "graph", "str")[(self.p + m + self.variant) % 3]
+        return "hist" if self.unnamed and k == "str" else k    # (a bare string has no filetype: not a plot)
 
     def data(self, m, version):
         import lena.structures
@@ -132,6 +138,8 @@ class Plot(object):
         return CsvObject(text) if k == "obj" else text
 
     def context(self, m):
+        if self.unnamed:
+            return None
         ctx = {"name": self.members[m - 1]}
         out = {}
         if self.grouped:
@@ -151,7 +159,8 @@ class Plot(object):
         return ctx
 
     def csv_path(self, outdir, m):
-        return os.path.join(outdir, self.dirname, self.members[m - 1] + ("." + self.csvext if self.csvext else ""))
+        return os.path.join(outdir, self.dirname,
+                            (self.members[m - 1] or self.gname) + ("." + self.csvext if self.csvext else ""))
 
     def path(self, outdir, kind):
         return os.path.join(outdir, self.dirname, self.gname + "." + (self.pngext if kind == "png" else kind))
@@ -159,7 +168,9 @@ class Plot(object):
     def expected_tex(self, outdir, version):
         """What Workspace.write_template(version) renders to for this plot / group."""
         csvs = " ".join(self.csv_path(outdir, m) for m in range(1, self.nsrc + 1))
-        return "%s END\n%% %stemplate version %d for %s" % (csvs, "ALT " if self.template else "", version, self.gname)
+        # (an unnamed value has no "name" in its context: the template variable renders as nothing)
+        return "%s END\n%% %stemplate version %d for %s" % (csvs, "ALT " if self.template else "", version,
+                                                           "" if self.unnamed else self.gname)
 
 
 class Tap(object):
